@@ -10,18 +10,22 @@ capacity suffices, else a fresh array). The SDK code paths that touch argument s
 * trace/config.go `attributeOption.applyEvent`: `c.attributes = append(c.attributes, o...)` (c.attributes starts nil);
   `NewEventConfig` folds the options;
 * span.go `addEvent`: `Event{Attributes: c.Attributes()}`, per-event cap (`e.Attributes[:limit]`), `s.events.add(e)`;
-* span.go `RecordError`: `opts = append(opts, WithAttributes(type, message))` (a fresh 2-element array),
+* span.go `RecordError`: `opts = append(opts[:len(opts):len(opts)], WithAttributes(type, message))` (after fix 30d2a20,
+  finding F45: the caller's OPTION slice is never written; option slices themselves are not part of this heap — only
+  the attribute arrays the options point to; the exception option is a fresh 2-element attribute array),
   `NewEventConfig(opts...)` (for the StackTrace test; its result is dropped but it runs), then `addEvent` → a second
   `NewEventConfig`;
-* span.go `AddLink`: `Link{Attributes: link.Attributes}` — the CALLER'S slice is stored (per-link cap re-slices it);
+* span.go `AddLink` (after fix 48fa451, finding F44): per-link cap (`l.Attributes[:limit]`), then
+  `l.Attributes = slices.Clone(l.Attributes)` — a fresh array; the ORIGINAL code stored the caller's slice (`keepLink`);
   tracer.go newRecordingSpan: `for l := range config.Links() { s.AddLink(l) }`;
 * SetAttributes / Start's WithAttributes: every element is copied into `s.attributes` (by value: C04's model);
 * `snapshot()`: `s.events.copy()` / `s.links.copy()` clone the QUEUES (the lists of records), not the attribute arrays
   the records point to.
 
-`step` is parametrised by the applyEvent function: `applyEvent` (the code as it is) and `applyEventAliased`
-(an allocation-saving fast path that stores the option's slice when the config has no attribute yet — refuted by
-`aliased_fastpath_breaks_immutability`).
+`step` is parametrised by an `Impl` = (applyEvent function, link-attribute store): `cur` = the code as it is
+(`applyEvent`, `cloneLink`); `aliasedEvents` = an allocation-saving fast path that stores the option's slice when the
+config has no attribute yet (refuted by `aliased_fastpath_breaks_immutability`); `sharedLinks` = the code before
+48fa451 (refuted by `reverted_link_fix_breaks_immutability`).
 -/
 import Otel.C04.Model
 namespace Otel.C10.Alias
@@ -61,6 +65,28 @@ def applyEventAliased (h : Heap) (c o : Slice) : Heap × Slice :=
   if c.len = 0 then (h, o) else goAppend h c (read h o)
 
 abbrev ApplyEvent := Heap → Slice → Slice → Heap × Slice
+abbrev LinkStore := Heap → Slice → Heap × Slice
+
+/-- `slices.Clone(l.Attributes)`: `append(s[:0:0], s...)` — a fresh array (nothing is allocated for an empty slice) -/
+def cloneLink (h : Heap) (s : Slice) : Heap × Slice :=
+  if s.len = 0 then (h, Slice.nil) else (h ++ [read h s], ⟨h.length, s.len, s.len⟩)
+
+/-- the code before 48fa451 (finding F44): the caller's slice is stored -/
+def keepLink (h : Heap) (s : Slice) : Heap × Slice := (h, s)
+
+structure Impl where
+  ae : ApplyEvent
+  lk : LinkStore
+
+/-- the code as it is -/
+def cur : Impl := ⟨applyEvent, cloneLink⟩
+/-- seeded change C10-12 / C04-9 -/
+def aliasedEvents : Impl := ⟨applyEventAliased, cloneLink⟩
+/-- the code before fix 48fa451 -/
+def sharedLinks : Impl := ⟨applyEvent, keepLink⟩
+
+@[simp] theorem cur_ae : cur.ae = applyEvent := rfl
+@[simp] theorem cur_lk : cur.lk = cloneLink := rfl
 
 /-- trace.NewEventConfig (attribute options only): returns the heap and `c.attributes` -/
 def newEventConfig (ae : ApplyEvent) (h : Heap) (opts : List Slice) : Heap × Slice :=
@@ -109,20 +135,20 @@ def addEvent (ae : ApplyEvent) (lim : Limits) (h : Heap) (s : RSpan) (name : Byt
   let c := capSlice lim.perEvent hc.2
   (hc.1, { s with events := s.events.add lim.eventCount ⟨name, c.1, c.2⟩ })
 
-/-- recordingSpan.AddLink after the recording check -/
-def addLink (lim : Limits) (s : RSpan) (sc : SC) (attrs : Slice) : RSpan :=
-  if !sc.isValid && attrs.len == 0 && sc.ts == 0 then s
-  else if s.base.ended then s
+/-- recordingSpan.AddLink -/
+def addLink (lk : LinkStore) (lim : Limits) (h : Heap) (s : RSpan) (sc : SC) (attrs : Slice) : Heap × RSpan :=
+  if !sc.isValid && attrs.len == 0 && sc.ts == 0 then (h, s)
+  else if s.base.ended then (h, s)
   else
     let c := capSlice lim.perLink attrs
-    { s with links := s.links.add lim.linkCount ⟨sc, c.1, c.2⟩ }
+    let r := lk h c.1
+    (r.1, { s with links := s.links.add lim.linkCount ⟨sc, r.2, c.2⟩ })
 
 structure World where
   heap : Heap := []
   bufs : List Slice := []                 -- the slices the caller holds
   spans : List RSpan := []
   exported : List (Nat × RSpan) := []     -- OnEnd log: span index, the snapshot (cloned queues of records)
-  linkArrs : List Nat := []               -- ghost: arrays handed to AddLink / WithLinks
 deriving Repr
 
 inductive AOp where
@@ -149,7 +175,7 @@ def isPlain : Op → Bool
   | .setStatus _ _ | .setName _ => true
   | _ => false
 
-def step (ae : ApplyEvent) (lim : Limits) (w : World) : AOp → World
+def step (im : Impl) (lim : Limits) (w : World) : AOp → World
   | .mk kvs spare =>
     { w with heap := w.heap ++ [kvs ++ List.replicate spare ⟨[], .invalid⟩],
              bufs := w.bufs ++ [⟨w.heap.length, kvs.length, kvs.length + spare⟩] }
@@ -161,11 +187,10 @@ def step (ae : ApplyEvent) (lim : Limits) (w : World) : AOp → World
     -- newRecordingSpan: the links (AddLink each), then SetAttributes(config.Attributes()...) — config.Attributes() is
     -- `append(nil, o...)` over the options: a copy, whose elements SetAttributes copies again (by value)
     let s0 : RSpan := { base := C04.init name }
-    let s1 := links.foldl (fun s l => addLink lim s l.1 (optBuf w l.2)) s0
+    let r := links.foldl (fun (hs : Heap × RSpan) l => addLink im.lk lim hs.1 hs.2 l.1 (optBuf w l.2)) (w.heap, s0)
     let vals := attrBufs.flatMap fun b => read w.heap (bufOf w b)
-    let s2 := { s1 with base := C04.step lim s1.base (.setAttrs vals) }
-    { w with spans := w.spans ++ [s2],
-             linkArrs := w.linkArrs ++ links.filterMap fun l => l.2.map fun b => (bufOf w b).arr }
+    let s2 := { r.2 with base := C04.step lim r.2.base (.setAttrs vals) }
+    { w with heap := r.1, spans := w.spans ++ [s2] }
   | .setAttrs i b =>
     match w.spans[i]? with
     | none => w
@@ -175,7 +200,7 @@ def step (ae : ApplyEvent) (lim : Limits) (w : World) : AOp → World
     | none => w
     | some s =>
       if s.base.ended then w
-      else let r := addEvent ae lim w.heap s name (bufs.map (bufOf w)); setSpan w i r.1 r.2
+      else let r := addEvent im.ae lim w.heap s name (bufs.map (bufOf w)); setSpan w i r.1 r.2
   | .recordError i err bufs =>
     match w.spans[i]?, err with
     | none, _ => w
@@ -186,15 +211,13 @@ def step (ae : ApplyEvent) (lim : Limits) (w : World) : AOp → World
         -- the variadic literal WithAttributes(exception.type, exception.message): a fresh array
         let h1 := w.heap ++ [[⟨excTypeKey, .str typ⟩, ⟨excMsgKey, .str msg⟩]]
         let opts := bufs.map (bufOf w) ++ [⟨w.heap.length, 2, 2⟩]
-        let h2 := (newEventConfig ae h1 opts).1          -- `c := trace.NewEventConfig(opts...)` for c.StackTrace()
-        let r := addEvent ae lim h2 s excName opts
+        let h2 := (newEventConfig im.ae h1 opts).1          -- `c := trace.NewEventConfig(opts...)` for c.StackTrace()
+        let r := addEvent im.ae lim h2 s excName opts
         setSpan w i r.1 r.2
   | .addLink i sc b =>
     match w.spans[i]? with
     | none => w
-    | some s =>
-      { setSpan w i w.heap (addLink lim s sc (optBuf w b)) with
-        linkArrs := w.linkArrs ++ (b.map fun b => (bufOf w b).arr).toList }
+    | some s => let r := addLink im.lk lim w.heap s sc (optBuf w b); setSpan w i r.1 r.2
   | .plain i op =>
     match w.spans[i]? with
     | none => w
@@ -208,11 +231,11 @@ def step (ae : ApplyEvent) (lim : Limits) (w : World) : AOp → World
         let s' := { s with base := C04.step lim s.base .end_ }
         { setSpan w i w.heap s' with exported := w.exported ++ [(i, s')] }
 
-def run (ae : ApplyEvent) (lim : Limits) (w : World) (ops : List AOp) : World := ops.foldl (step ae lim) w
+def run (im : Impl) (lim : Limits) (w : World) (ops : List AOp) : World := ops.foldl (step im lim) w
 
 inductive Reachable (lim : Limits) : World → Prop where
   | init : Reachable lim {}
-  | step {w : World} (op : AOp) : Reachable lim w → Reachable lim (step applyEvent lim w op)
+  | step {w : World} (op : AOp) : Reachable lim w → Reachable lim (step cur lim w op)
 
 /-! ### Value semantics: the specification ("argument values are copied at the call")
 
@@ -256,18 +279,5 @@ def vstep (lim : Limits) (w : VWorld) : AOp → VWorld
                     exported := w.exported ++ [(i, C04.snapshot (C04.step lim s .end_))] }
 
 def vrun (lim : Limits) (w : VWorld) (ops : List AOp) : VWorld := ops.foldl (vstep lim) w
-
-/-- KNOWN-FINDING candidate (links): the caller writes, through buffer `b`, a cell of an array it handed to AddLink /
-WithLinks earlier in the script — AddLink retains the caller's slice, so the write shows in the span and in its
-exported snapshot. Syntactic, on the script alone. -/
-def linkWriteAfterUse : List AOp → Bool
-  | [] => false
-  | op :: rest =>
-    (match op with
-     | .addLink _ _ (some b) => rest.any fun | .wr b' _ _ => b' == b | _ => false
-     | .start _ _ links => links.any fun l => match l.2 with
-        | some b => rest.any fun | .wr b' _ _ => b' == b | _ => false
-        | none => false
-     | _ => false) || linkWriteAfterUse rest
 
 end Otel.C10.Alias
